@@ -412,6 +412,10 @@ func (c *ClientConn) Send(request Request) error {
 	})
 	if err == nil {
 		atomic.AddInt32(&c.inflight, 1)
+	} else if c.pending.loadAndDelete(stream) == nil {
+		// The request was never written, but the connection's `Closing()` has already taken it from the pending
+		// requests and notifies it through `OnClose()`, so the failure must not be reported a second time here.
+		return nil
 	}
 	return err
 }
